@@ -197,7 +197,8 @@ def tlc(ctx, module, cfg, workers=None, env=None, timeout=900, args=(), deque=Fa
     """Run TLC on spec file `module` (path to .tla) with config `cfg`. Returns TlcResult."""
     cwd = cwd or os.path.dirname(module)
     meta = ctx.fresh_dir('tlc-' + (label or os.path.basename(cfg)))
-    jopts = ['-XX:+UseParallelGC', '-Xss64m']   # deep recursion of per-byte operators on long inputs
+    jopts = ['-XX:+UseParallelGC', '-Xss64m',   # deep recursion of per-byte operators on long inputs
+             '-Djava.io.tmpdir=' + meta]        # TLC leaves an empty tlc-<n> directory per run in the JVM's temp dir
     if heap:
         jopts.append('-Xmx' + heap)
     if deque:
